@@ -22,5 +22,15 @@ func init() {
 		seed{Prop: "C01", Name: "empty-clause-in-dimacs-dropped", File: "solver/parser.go",
 			Old: "\t\t\t\tif val == 0 {\n\t\t\t\t\tpb.Clauses = append(pb.Clauses, NewClause(lits))\n\t\t\t\t\tbreak\n",
 			New: "\t\t\t\tif val == 0 {\n\t\t\t\t\tif len(lits) != 0 {\n\t\t\t\t\t\tpb.Clauses = append(pb.Clauses, NewClause(lits))\n\t\t\t\t\t}\n\t\t\t\t\tbreak\n", Expect: "R13.7", Note: "external mutant C01-r2-m2"},
+		seed{Prop: "C06", Name: "minimize-skips-first-reason-literal", File: "solver/learn.go",
+			Old: "\t\t\tfor k := 0; k < reason.Len(); k++ {\n\t\t\t\tlit := reason.Get(k)", New: "\t\t\tk := 0\n\t\t\tif reason.Learned() {\n\t\t\t\tk = 1\n\t\t\t}\n\t\t\tfor ; k < reason.Len(); k++ {\n\t\t\t\tlit := reason.Get(k)", Expect: "R1.10", Note: "external mutant C06-m1"},
+		seed{Prop: "C01", Name: "conflict-scan-stops-one-short", File: "solver/learn.go",
+			Old: "\tfor i := 0; i < confl.Len(); i++ {\n\t\tl := confl.Get(i)", New: "\tfor i := 0; i < confl.Len()-1; i++ {\n\t\tl := confl.Get(i)", Expect: "R1.10"},
+		seed{Prop: "C06", Name: "restart-before-pending-literal-bound", File: "solver/solver.go",
+			Old: "\t\tif conflict := s.unifyLiteral(lit, lvl); conflict == nil { // Pick new branch or restart\n\t\t\tif s.lbdStats.mustRestart() {\n\t\t\t\ts.lbdStats.clear()\n\t\t\t\ts.cleanupBindings(1)\n\t\t\t\treturn Indet\n\t\t\t}\n\t\t\tif s.Stats.NbConflicts >= s.wl.idxReduce*s.wl.nbMax {\n\t\t\t\ts.wl.idxReduce = s.Stats.NbConflicts/s.wl.nbMax + 1\n\t\t\t\ts.reduceLearned()",
+			New: "\t\tif s.lbdStats.mustRestart() {\n\t\t\ts.lbdStats.clear()\n\t\t\ts.cleanupBindings(1)\n\t\t\treturn Indet\n\t\t}\n\t\tif conflict := s.unifyLiteral(lit, lvl); conflict == nil { // Pick new branch or restart\n\t\t\tif s.Stats.NbConflicts >= s.wl.idxReduce*s.wl.nbMax {\n\t\t\t\ts.wl.idxReduce = s.Stats.NbConflicts/s.wl.nbMax + 1\n\t\t\t\ts.reduceLearned()", Expect: "R1.11", Note: "external mutant C06-m2"},
+		seed{Prop: "C14", Name: "pb-restart-before-pending-literal-bound", File: "solver/solver.go",
+			Old: "\t\tif conflict := s.unifyLiteral(lit, lvl); conflict == nil { // Pick new branch or restart\n\t\t\tif s.Stats.NbConflicts >= s.lubyNextRestart {\n\t\t\t\ts.lubyNextRestart += int(lubyConstant * luby(uint(s.Stats.NbRestarts)+2))\n\t\t\t\ts.cleanupBindings(1)\n\t\t\t\treturn Indet\n\t\t\t}\n",
+			New: "\t\tif s.Stats.NbConflicts >= s.lubyNextRestart {\n\t\t\ts.lubyNextRestart += int(lubyConstant * luby(uint(s.Stats.NbRestarts)+2))\n\t\t\ts.cleanupBindings(1)\n\t\t\treturn Indet\n\t\t}\n\t\tif conflict := s.unifyLiteral(lit, lvl); conflict == nil { // Pick new branch or restart\n", Expect: "R1.11"},
 	)
 }
